@@ -13,7 +13,7 @@ VARIABLES l
 TInit == l = 1
 ToSet(s) == {s[k] : k \in 1..Len(s)}
 Gr(st) == [fg |-> st.fg, bg |-> st.bg, ul |-> st.ul, eff |-> ToSet(st.eff)]
-Ops == {"insert", "or", "remove", "sub", "set1", "set0", "contains"}
+Ops == {"insert", "or", "or_assign", "remove", "sub", "sub_assign", "set1", "set0", "contains"}
 EventOk(e) ==
   CASE e.k = "eff" ->
          /\ \A op \in Ops : \A j \in 1..Len(e.bs) : e.res[op][j] = BinOp(op, e.a, e.bs[j])
